@@ -4,6 +4,7 @@ package sync
 
 import (
 	"context"
+	"fmt"
 	"time"
 )
 
@@ -70,4 +71,81 @@ func (s *Syncer[H]) VerifPolicy() (trustingPeriod, blockTime, recencyThreshold t
 func VerifRangeAmount(start uint64, n int, end uint64) uint64 {
 	r := &headerRange[*verifHdr]{start: start, headers: make([]*verifHdr, n)}
 	return r.rangeAmount(end)
+}
+
+// VerifRangesRun drives a fresh pending set (ranges) through a script of operations and reports, per operation, what it
+// returned (heights) or that it panicked. Operations: "add h", "first" (-> the heights of the returned range),
+// "get e" / "remove e" (on the range the last "first" returned), "prune e", "head", "dump".
+func VerifRangesRun(ops []string) []string {
+	rs := new(ranges[*verifHdr])
+	var cur *headerRange[*verifHdr]
+	out := make([]string, 0, len(ops))
+	hs := func(xs []*verifHdr) string {
+		s := "["
+		for i, x := range xs {
+			if i > 0 {
+				s += ","
+			}
+			if x == nil {
+				s += "nil"
+			} else {
+				s += fmt.Sprint(x.Height())
+			}
+		}
+		return s + "]"
+	}
+	for _, op := range ops {
+		res := func() (res string) {
+			defer func() {
+				if r := recover(); r != nil {
+					res = "panic"
+				}
+			}()
+			var name string
+			var arg uint64
+			_, _ = fmt.Sscanf(op, "%s %d", &name, &arg)
+			switch name {
+			case "add":
+				rs.Add(&verifHdr{h: arg})
+				return "ok"
+			case "first":
+				r, ok := rs.First()
+				if !ok {
+					cur = nil
+					return "none"
+				}
+				cur = r
+				return hs(r.headers)
+			case "get":
+				if cur == nil {
+					return "nocur"
+				}
+				return hs(cur.Get(arg))
+			case "remove":
+				if cur == nil {
+					return "nocur"
+				}
+				cur.Remove(arg)
+				return fmt.Sprintf("start=%d %s", cur.start, hs(cur.headers))
+			case "prune":
+				rs.Prune(arg)
+				return "ok"
+			case "head":
+				h := rs.Head()
+				if h.IsZero() {
+					return "zero"
+				}
+				return fmt.Sprint(h.Height())
+			case "dump":
+				s := ""
+				for _, r := range rs.ranges {
+					s += fmt.Sprintf("%d:%s;", r.start, hs(r.headers))
+				}
+				return "{" + s + "}"
+			}
+			return "bad-op"
+		}()
+		out = append(out, res)
+	}
+	return out
 }
